@@ -62,6 +62,7 @@ func c03Gen(r *RNG, id string, agg bool) *Case {
 		thrN, thrD = genThreshold(r, len(seqs))
 	}
 	c.SetInt("thrn", thrN).SetInt("thrd", thrD)
+	maybeCLI(r, c, 6)
 	for _, s := range append([]string{ref}, seqs...) {
 		if hasAmbig(s) {
 			c.NonTrv = true
@@ -77,6 +78,10 @@ func execC03(r *RNG, c *Case) {
 	refTxt := renderFasta([]string{"ref desc"}, []string{c.Get("ref")}, randLayout(r))
 	alnTxt := renderFasta(withDescriptions(r, names), seqs, randLayout(r))
 	thr := decThr(atoi(c.Get("thrn")), atoi(c.Get("thrd")))
+	if isCLI(c) {
+		c.Set("go", goField(snpsCLI(c, refTxt, alnTxt, c.Get("agg") == "1")))
+		return
+	}
 	res := safeRun(20*time.Second, func() (string, error) {
 		var out bytes.Buffer
 		err := snps.SNPs(strings.NewReader(refTxt), strings.NewReader(alnTxt), c.Get("hard") == "1", c.Get("agg") == "1", thr, &out)
@@ -137,9 +142,24 @@ func runSnps(c *Case, agg bool) result {
 	refTxt := renderFasta([]string{"ref desc"}, []string{c.Get("ref")}, randLayout(lr))
 	alnTxt := renderFasta(names, seqs, randLayout(lr))
 	thr := decThr(atoi(c.Get("thrn")), max1(atoi(c.Get("thrd"))))
+	if isCLI(c) {
+		return snpsCLI(c, refTxt, alnTxt, agg)
+	}
 	return safeRun(20*time.Second, func() (string, error) {
 		var out bytes.Buffer
 		err := snps.SNPs(strings.NewReader(refTxt), strings.NewReader(alnTxt), c.Get("hard") == "1", agg, thr, &out)
 		return out.String(), err
 	})
+}
+
+// snpsCLI: `gofasta snps -r r.fa -q a.fa [--hard-gaps] [--aggregate --threshold x]`
+func snpsCLI(c *Case, refTxt, alnTxt string, agg bool) result {
+	args := []string{"snps", "-r", "{dir}/r.fa", "-q", "{dir}/a.fa"}
+	if c.Get("hard") == "1" {
+		args = append(args, "--hard-gaps")
+	}
+	if agg {
+		args = append(args, "--aggregate", "--threshold", decStr(atoi(c.Get("thrn")), max1(atoi(c.Get("thrd")))))
+	}
+	return viaCLI(map[string]string{"r.fa": refTxt, "a.fa": alnTxt}, "", args, nil)
 }
